@@ -50,6 +50,8 @@ def setup():
   from openhtf.plugs.usb import adb_message, usb_exceptions
   from openhtf.util import timeouts
   harness.assert_root(adb_message)
+  # as every real AdbDevice does: the filesync command set is loaded as well
+  from openhtf.plugs.usb import filesync_service  # pylint: disable=unused-import
   _M.update(adb_message=adb_message, exc=usb_exceptions, timeouts=timeouts)
   eng = pause.Engine([adb_message.__file__],
                      lambda th: th.name if th.name[:1] in ('W', 'R') and
@@ -256,14 +258,36 @@ def run_reuse(case):
 def run_badcmd(case):
   am, exc = _M['adb_message'], _M['exc']
   viol = []
-  for bad in ('XXXX', '', 'okay', 'WRTE '):
+  # unknown names, and the four-letter ids of the *filesync* command set, which
+  # are not ADB message commands
+  others = ('STAT', 'LIST', 'SEND', 'RECV', 'DENT', 'DONE', 'DATA', 'FAIL', 'QUIT')
+  for bad in ('XXXX', '', 'okay', 'WRTE ') + others:
     try:
       am.AdbMessage(bad)
       viol.append({'mechanism': 'unknown-command-constructed',
                    'detail': {'cmd': bad}})
     except exc.AdbProtocolError:
       pass
-  return _result(case, viol, {'corruptions_checked': 4})
+  n = 4 + len(others)
+  for name in others:
+    wire = sum(ord(ch) << (i * 8) for i, ch in enumerate(name))
+    for size in (0, 3):
+      payload = payload_of(size, 5)
+      header = struct.pack('<6I', wire, 1, 2, size,
+                           sum(payload.encode('latin-1')) & 0xFFFFFFFF,
+                           wire ^ 0xFFFFFFFF)
+      tr = Transport(chunks=[header] + ([payload] if size else []))
+      n += 1
+      try:
+        m = am.AdbTransportAdapter(tr).read_message(to())
+        viol.append({'mechanism': 'unknown-command-delivered',
+                     'detail': {'cmd': name, 'msg': repr(m)[:80]}})
+      except exc.AdbProtocolError:
+        pass
+      except Exception as e:  # pylint: disable=broad-except
+        viol.append({'mechanism': 'unknown-command-wrong-exception:' +
+                                  type(e).__name__, 'detail': {'cmd': name}})
+  return _result(case, viol[:4], {'corruptions_checked': n})
 
 
 def corrupt(base, c):
